@@ -186,6 +186,12 @@ def compare(exp, obs, check_doc=True):
             continue
         if rstobs.norm_ws(e["sig"]) != o["sig"]:
             msgs.append(f"signature: {where} expected {e['sig']!r} observed {o['sig']!r}")
+        elif e["kind"] in DEF_KINDS and "rawsig" in o:
+            # parameter by parameter: whitespace inside a quoted or bracket parameter belongs to the parameter
+            want = [p for p in list(e["params"]) + (["**kwargs"] if e["kwargs"] else []) if p != ""]
+            got = rstobs.split_sig(o["rawsig"])[1]
+            if got is not None and got != want:
+                msgs.append(f"signature: {where} parameters as written {want!r}, shown {got!r}")
         if check_doc and rstobs.strip_blank(e["doc"]) and not rstobs.contains_run(o["doc"], rstobs.strip_blank(e["doc"])):
             msgs.append(f"doc: {where} doc text missing from its block: {o['doc']!r}")
         if e["kind"] == "class":
